@@ -106,6 +106,18 @@ class Anchors:
         for g in prog.globals.values():
             if g['q'].startswith(self.Mq + '::') and g.get('staticmember') and prog.type(g['t']).get('k') == 'int' and not g.get('const'):
                 self.live = 'G:' + g['q']
+        # the block array of a buffer: a member array of rows, or a pointer to rows the buffer allocates for itself
+        self.heap_fields = {}
+        self.blk = None
+        for x in self.B['fields']:
+            t = T(x['t'])
+            if t.get('k') == 'array':
+                self.blk = x['d'][2:]
+            elif t.get('k') == 'ptr' and (T(t['to']).get('k') == 'array' or T(t['to']).get('bits') == 8):
+                self.heap_fields[x['d'][2:]] = x['d'][2:] + '$heap'
+                self.blk = x['d'][2:] + '$heap'
+        if self.blk is None:
+            raise AnalysisBroken('block array of %s not found' % self.Bq)
         # chunk constants
         self.consts = {}
         for g in prog.globals.values():
@@ -525,6 +537,7 @@ class PipelineAnalysis:
         mdl = dict(models.STD_MODELS)
         mdl[A.step['q']] = step_model(A, rec if not quiet else _Null(), counters)
         I = interp.Interp(self.prog, listeners=[rl, wf], models=mdl)
+        I.heap_fields = A.heap_fields
         st = initial_state(A, 'worker', True)
         st.sym['id'] = (0, 15)
         st.comps['blk'] = False
@@ -547,6 +560,7 @@ class PipelineAnalysis:
         chk = ChunkRules(A, rec if not quiet else _Null(), ispadding, sumv, bufsz)
         lst.append(chk)
         I = interp.Interp(self.prog, listeners=lst, models=mdl)
+        I.heap_fields = A.heap_fields
         I.fread_override = partitioned_fread(A, sumv, bufsz)
         I.fgetc_override = fgetc_by_remaining
         st = initial_state(A, 'io', ispadding)
@@ -602,7 +616,7 @@ class PipelineAnalysis:
                    A.names(wl.write_from), A.names(il.write_from | il2.write_from)))
         # --- what the worker writes inside a buffer: one cursor field from one function (R03.b)
         scal = {f: fns for f, fns in wl.b_written.items()
-                if A.prog.type(next(x['t'] for x in A.B['fields'] if x['d'][2:] == f)).get('k') != 'array'}
+                if f != A.blk and A.prog.type(next((x['t'] for x in A.B['fields'] if x['d'][2:] == f), None) or 'int').get('k') != 'array'}
         ok = len(scal) == 1 and len(next(iter(scal.values()))) == 1
         rec.ob('R03.b', 'R03.b@%s::worker-writes-only-the-cursor' % A.Bq, ok, A.B['file'],
                'worker role writes buffer bookkeeping fields %s' % {f: sorted(A.prog.functions[x]['q'] for x in v if x in A.prog.functions) for f, v in wl.b_written.items()})
@@ -610,7 +624,7 @@ class PipelineAnalysis:
             self.cursor = next(iter(scal))
             self.cursor_fn = next(iter(scal[self.cursor]))
             self.keep_on_handover = tuple(f['d'][2:] for f in A.B['fields']
-                                          if f['d'][2:] not in wl.b_written and A.prog.type(f['t']).get('k') != 'array')
+                                          if f['d'][2:] not in wl.b_written and A.prog.type(f['t']).get('k') != 'array') + tuple(A.heap_fields.values())
             self.check_cursor()
         self.check_unpad()
         # --- io-side object invariant of a buffer (joined over construction and every hand-over), by iteration
@@ -668,9 +682,10 @@ def _check_cursor(self):
     A, rec = self.A, self.rec
     f = A.prog.functions[self.cursor_fn]
     OBJ = ('ext', 'onebuf')
-    arr = next(x['d'][2:] for x in A.B['fields'] if A.prog.type(x['t']).get('k') == 'array')
+    arr = A.blk
     for rel, mk in (('lt', lambda t, d: L(0, {t: 1, d: -1})), ('eq', lambda t, d: sym(t)), ('gt', lambda t, d: L(0, {t: 1, d: 1}))):
         I = interp.Interp(A.prog, models=dict(models.STD_MODELS))
+        I.heap_fields = A.heap_fields
         st = interp.State()
         st.sym['t'] = (1 << 21, 1 << 22)
         st.sym['d'] = (1, 1 << 20)
@@ -733,13 +748,14 @@ def _check_unpad(self):
         raise AnalysisBroken('export routine of %s not found' % A.Bq)
     f = exp[0]
     OBJ = ('ext', 'onebuf')
-    arr = next(x['d'][2:] for x in A.B['fields'] if A.prog.type(x['t']).get('k') == 'array')
+    arr = A.blk
     sizes = []
 
     class Lst:
         def on_fwrite(self, I, st, node, root, pos, size, src, fval):
             sizes.append((size, dict(st.sym)))
     I = interp.Interp(A.prog, listeners=[Lst()], models=dict(models.STD_MODELS))
+    I.heap_fields = A.heap_fields
     st = interp.State()
     st.sym['q'] = (0, bufsz - 1)
     st.sym['t'] = (0, 15)
